@@ -46,13 +46,16 @@ def captured_logs():
     handler = logging.StreamHandler(buf)
     handler.setLevel(logging.DEBUG)
     loggers = [logging.getLogger("halmos"), logging.getLogger("halmos.unique")]
+    saved = [(lg, list(lg.handlers), lg.propagate) for lg in loggers]
     for lg in loggers:
-        lg.addHandler(handler)
+        lg.handlers = [handler]  # capture instead of printing through halmos' console handler
+        lg.propagate = False
     try:
         yield buf
     finally:
-        for lg in loggers:
-            lg.removeHandler(handler)
+        for lg, hs, prop in saved:
+            lg.handlers = hs
+            lg.propagate = prop
 
 
 @dataclass
@@ -206,6 +209,10 @@ def run(prog: Prog, *cli: str, args=None) -> HRun:
     args = args or mk_args("--solver-timeout-branching", "0", *cli)
     sevm = SEVM(args, FunctionInfo("Verif", "run", "run()", "c0406226"))
     solver = hmain.mk_solver(args)
+    from halmos.mapper import BuildOut
+
+    if BuildOut()._build_out_map is None:
+        BuildOut().set_build_out({})  # what run_contract does before any execution
     paths = []
     exc = None
     with captured_logs() as buf:
